@@ -66,6 +66,15 @@ def bracket_rule(
                 return False
             return True
 
+        # the close must not run when the open itself failed: open inside the `try` whose `finally` closes
+        par = getattr(n.ast, "parent", None)
+        if isinstance(par, ast.Try) and n.ast in par.body and any(contains_call(b, close_pred) for b in par.finalbody):
+            rr.fail(
+                f"{f.short}:{norm(n.ast)[:60]}:open-inside-try",
+                f.loc(n.ast),
+                f"{what}: `{norm(n.ast)[:60]}` sits inside the try whose finally runs the closing call: when the opening call itself raises (e.g. already open), the close undoes somebody else's open",
+            )
+            continue
         leaks = cfg.exits_reachable_without(n.id, passing, edge_ok=edge_ok)
         if not leaks:
             rr.ok({"function": f.short, "open": norm(n.ast)[:80], "exits_all_pass_close": True})
